@@ -174,31 +174,21 @@ def char_lits(e):
 
 def r3_delims(rep, facts, a):
     R = rep.rule('C12/R3', 'delimiter / zone / sign character sets of the standalone parser equal the grammar\'s: {T, t, space}, {Z, z}, {+, -}', floor=3)
-    b = facts.body(FROM_STR)
+    # decided on the verdicts of the standalone parser (evaluated, not run) for one-character variations of a full date-time
+    b, run = standalone_eval(facts)
     loc = facts.loc(b)
-    delim = zone = None
-    for n in walk(b['body']):
-        if n.get('k') == 'let' and n['pat'].get('k') == 'p_bind' and n['pat']['name'].split('#')[0] == 'partial_time':
-            c = peel(n['init'])
-            if c.get('k') == 'if':
-                delim = char_lits(c['cond'])
-    signs = set()
-    for n in walk(b['body']):
-        if n.get('k') == 'if':
-            cl = char_lits(n['cond'])
-            if cl and cl <= {ord('Z'), ord('z')} and zone is None and any((x.get('path') or '').endswith('Offset::Z') for x in walk(n['then'])):
-                zone = cl
-        if n.get('k') == 'let' and n['pat'].get('k') == 'p_bind' and n['pat']['name'].split('#')[0] == 'sign':
-            m = peel(n['init'])
-            if m.get('k') == 'match':
-                it = Interp(Evaluator(facts))
-                for arm in m['arms']:
-                    cl = {x['e']['v'] for x in walk(arm['pat']) if x.get('k') == 'p_expr' and x['e'].get('lk') == 'char'}
-                    for c in cl:
-                        try:
-                            signs.add((c, it.run(arm['body'], {})))
-                        except Unanalysable:
-                            signs.add((c, None))
+    alphabet = [chr(c) for c in range(1, 128)] + ['\u00e9', '\u2212', '\uff0b']
+    try:
+        delim = {ord(c) for c in alphabet if run(f'1979-05-27{c}07:32:00') is not None and run(f'1979-05-27{c}07:32:00')[1] is not None}
+        zone = {ord(c) for c in alphabet if run(f'1979-05-27T07:32:00{c}') is not None and run(f'1979-05-27T07:32:00{c}')[2] == 'Z'}
+        signs = set()
+        for c in alphabet:
+            r = run(f'1979-05-27T07:32:00{c}01:00')
+            if r is not None:
+                signs.add((ord(c), (r[2] // 60) if isinstance(r[2], int) else r[2]))
+    except Unanalysable as e:
+        rep.incomplete(R, 'standalone|tables', f'cannot evaluate the standalone parser: {e}', loc)
+        return
     rep.check(R, 'standalone|time-delim', delim == set(cc(a, 'time-delim')), f'{sorted(map(chr, delim or []))}', f'standalone date/time delimiter set is {sorted(map(chr, delim or []))}, the grammar takes {sorted(map(chr, cc(a, "time-delim")))}', loc)
     zexp = set(a.charclass(a.alternatives('time-offset')[0]))
     rep.check(R, 'standalone|zulu', zone == zexp, f'{sorted(map(chr, zone or []))}', f'standalone zone letters {sorted(map(chr, zone or []))}, grammar {sorted(map(chr, zexp))}', loc)
